@@ -114,6 +114,7 @@ func (a *Agent) Run(ctx context.Context) error {
 	if err := a.checkIsAlreadyRunning(); err != nil {
 		return err
 	}
+	verifPoint("agent.probed", a.requestID)
 
 	// Make a connection to the database.
 	// It should close the connection to the history database when the DAG
@@ -121,6 +122,7 @@ func (a *Agent) Run(ctx context.Context) error {
 	if err := a.setupDatabase(); err != nil {
 		return err
 	}
+	verifPoint("agent.histopen", a.requestID)
 	defer func() {
 		if err := a.historyStore.Close(); err != nil {
 			a.logger.Error("Failed to close history store", "error", err)
@@ -155,6 +157,7 @@ func (a *Agent) Run(ctx context.Context) error {
 	if err := <-lnErr; err != nil {
 		return errFailedSetupUnixSocket
 	}
+	verifPoint("agent.bound", a.requestID)
 
 	// Setup channels to receive status updates for each node in the DAG.
 	// It should receive node instance when the node status changes, for
@@ -190,6 +193,7 @@ func (a *Agent) Run(ctx context.Context) error {
 	lastErr := a.scheduler.Schedule(dagCtx, a.graph, done)
 
 	// Update the finished status to the history database.
+	verifPoint("agent.final", a.requestID)
 	finishedStatus := a.Status()
 	a.logger.Info("Workflow execution finished", "status", finishedStatus.Status)
 	if err := a.historyStore.Write(a.Status()); err != nil {
